@@ -238,6 +238,75 @@ def pad_calls(fn):
     return [c for c in calls(fn.node) if U(c.func) == "pad_ragged_arrays_to_dense_array"]
 
 
+def broadcast_padding(f, e, env, pred_arg, pad_call):
+    """np.where(IDX[None, None, :] >= SIZES[:, None, None], nan, VAR[:, :, None])  with IDX = arange(dense width of the padded means) and
+    SIZES the per-plate experiment counts: "ok"; the same shape with another comparison: a description of what is wrong; else None"""
+    if not (isinstance(e, ast.Call) and call_name(e) == "np.where" and len(e.args) == 3):
+        return None
+    cond, a, b = e.args
+    isnan = lambda x: U(x) in ("np.nan", "float('nan')", "math.nan", "np.NaN")
+    if not isinstance(cond, ast.Compare) or len(cond.ops) != 1:
+        return None
+    l, r = cond.left, cond.comparators[0]
+    op = type(cond.ops[0])
+
+    def axis_form(x):
+        # X[None, None, :] -> ("e", X) ; X[:, None, None] -> ("p", X)
+        if isinstance(x, ast.Subscript) and isinstance(x.slice, ast.Tuple) and len(x.slice.elts) == 3:
+            k = ["n" if (isinstance(t, ast.Constant) and t.value is None) else (":" if isinstance(t, ast.Slice) and t.lower is None and t.upper is None else "?") for t in x.slice.elts]
+            if k == ["n", "n", ":"]:
+                return "e", x.value
+            if k == [":", "n", "n"]:
+                return "p", x.value
+        return None, None
+    la, lx = axis_form(l)
+    ra, rx = axis_form(r)
+    if {la, ra} != {"e", "p"}:
+        return None
+    flip = {ast.Gt: ast.Lt, ast.Lt: ast.Gt, ast.GtE: ast.LtE, ast.LtE: ast.GtE}
+    if la == "p":
+        lx, rx = rx, lx
+        op = flip.get(op, op)
+    # now: index OP size
+    idx_ok = isinstance(lx, ast.Call) and call_name(lx) == "np.arange" and len(lx.args) == 1
+    width = U(lx.args[0]).replace(" ", "") if idx_ok else ""
+    pn = U(pred_arg)
+    pred_src = env.get(pn) if isinstance(pred_arg, ast.Name) else pred_arg
+    if not (idx_ok and pred_src is pad_call and width in (f"{pn}.shape[2]", f"{pn}.shape[-1]")):
+        return None
+    ragged = U(pad_call.args[0]) if pad_call.args else None
+    sz = rx
+    if isinstance(sz, ast.Call) and call_name(sz) in ("np.array", "np.asarray") and sz.args:
+        sz = sz.args[0]
+    good_sizes = isinstance(sz, ast.ListComp) and len(sz.generators) == 1 and U(sz.generators[0].iter) == ragged \
+        and U(sz.elt).replace(" ", "") in (f"{U(sz.generators[0].target)}.shape[1]", f"{U(sz.generators[0].target)}.shape[-1]")
+    if not good_sizes:
+        return None
+    # which arm is NaN
+    if isnan(a) and not isnan(b):
+        pad_when, val = op, b
+    elif isnan(b) and not isnan(a):
+        pad_when, val = {ast.Gt: ast.LtE, ast.GtE: ast.Lt, ast.Lt: ast.GtE, ast.LtE: ast.Gt}.get(op), a
+    else:
+        return "neither / both arms of the np.where are NaN"
+    # the value is the per-(plate, theta) variance repeated along the experiment axis
+    vb = val
+    okv = isinstance(vb, ast.Subscript) and isinstance(vb.slice, ast.Tuple) and len(vb.slice.elts) == 3 and isinstance(vb.slice.elts[2], ast.Constant) and vb.slice.elts[2].value is None \
+        and all(isinstance(t, ast.Slice) and t.lower is None and t.upper is None for t in vb.slice.elts[:2])
+    if okv:
+        src = vb.value
+        if isinstance(src, ast.Call) and call_name(src) in ("np.asarray", "np.array") and src.args:
+            src = src.args[0]
+        okv = isinstance(src, ast.Name) and src.id in f.params
+    if not okv:
+        return None
+    if pad_when is ast.GtE:
+        return "ok"
+    if pad_when is ast.Gt:
+        return "a column is treated as padding only when its index EXCEEDS the plate's size: the first padding column of every shorter plate keeps a real variance and is counted as an experiment"
+    return f"the padding predicate is index {pad_when.__name__ if pad_when else '?'} size, not index >= size"
+
+
 def r2(ctx):
     # producers
     for q, kernel_kw in ((f"{GD}.dbal_fast_gaussian_scoring_heteroscedastic", True), (f"{GD}.dbal_fast_gaussian_scoring_homoscedastic", True), (f"{GD}.GaussianDBALScorer.score", True)):
@@ -248,9 +317,21 @@ def r2(ctx):
         if not kc and len(wr) == 1 and q.endswith("GaussianDBALScorer.score"):
             ctx.ok("R2", f"{f.site()}::padding", f"delegates padding and the kernel call to {U(wr[0].func)} (checked as its own producer)")
             continue
+        env = single_defs(f.node)
+        if len(kc) == 1 and len(pcs) == 1:
+            # variances padded by broadcasting: np.where(e >= size_p, nan, var[p, t])
+            kw = kwargs(kc[0])
+            vv = kw.get("variances")
+            pp = kw.get("predictions")
+            verdict = broadcast_padding(f, inline(vv, {k: v for k, v in env.items() if k != U(pp)}), env, pp, pcs[0]) if vv is not None and pp is not None else None
+            if verdict is not None:
+                pm = arg(pcs[0], 1, "pad_value")
+                fin = pm is None or (isinstance(pm, ast.Constant) and isinstance(pm.value, (int, float)))
+                ctx.check("R2", f"{f.site()}::padding", verdict == "ok" and fin, "means padded with a finite constant, variances NaN exactly at the columns past each plate's size",
+                          f"padding protocol broken at this producer ({verdict}): the kernel recognises padding only by NaN variances")
+                continue
         ctx.need(len(kc) == 1 and len(pcs) == 2, f"{f.site()}: expected two padding calls and one kernel call")
         kw = kwargs(kc[0])
-        env = single_defs(f.node)
         roles = {}
         for role in ("predictions", "variances"):
             v = kw.get(role)
